@@ -12,7 +12,7 @@ ap = argparse.ArgumentParser()
 ap.add_argument("mdir"); ap.add_argument("--checks", default=""); ap.add_argument("--tier", default="quick")
 ap.add_argument("--skip-confirm", action="store_true")
 a = ap.parse_args()
-env = dict(os.environ, GOFLAGS="-mod=mod", GOPROXY="off", GOSUMDB="off", GOTOOLCHAIN="local")
+env = dict(os.environ, GOFLAGS="-mod=mod -trimpath", GOPROXY="off", GOSUMDB="off", GOTOOLCHAIN="local")
 tmp = tempfile.mkdtemp(prefix="seedtest-")
 res = {"mutant": a.mdir}
 try:
